@@ -166,110 +166,191 @@ theorem swapSelf_eq {cap : Nat} (k : Kind) (a : V) (hc : cap < 2 ^ 64) (ha : a.l
   rw [moveAssign_eq k _ a hc ha]
   simp
 
-/-! ### comparisons -/
+/-! ### comparisons
 
-theorem equalLoop_shift (x y : Nat) (a b : V) (n i : Nat) :
-    equalLoop (x :: a) (y :: b) (i + 1) n = equalLoop a b i n := by
+The element's `operator<` is any function `lt`, its `operator==` any function `eq`; nothing relates the two. -/
+
+theorem equalLoop_shift (eq : Nat → Nat → Bool) (x y : Nat) (a b : V) (n i : Nat) :
+    equalLoop eq (x :: a) (y :: b) (i + 1) n = equalLoop eq a b i n := by
   induction n generalizing i with
   | zero => rfl
   | succ n ih => simp [equalLoop, ih]
 
-theorem equalLoop_eq : ∀ (a b : V), a.length = b.length → equalLoop a b 0 a.length = .ok (a == b) := by
+theorem equalLoop_eq (eq : Nat → Nat → Bool) :
+    ∀ (a b : V), a.length = b.length → equalLoop eq a b 0 a.length = .ok (Spec.eqList eq a b) := by
   intro a
   induction a with
-  | nil => intro b h; cases b <;> simp_all [equalLoop]
+  | nil => intro b h; cases b <;> simp_all [equalLoop, Spec.eqList]
   | cons x a ih =>
     intro b h
     cases b with
     | nil => simp at h
     | cons y b =>
-      simp only [List.length_cons, equalLoop, rd_cons_zero, ok_bind, equalLoop_shift]
-      by_cases hxy : x = y
-      · subst hxy
-        simp only [ne_eq, not_true_eq_false, if_false]
-        rw [ih b (by simpa using h)]
-        simp
-      · simp [hxy]
+      simp only [List.length_cons, equalLoop, rd_cons_zero, ok_bind, equalLoop_shift, Spec.eqList]
+      cases hxy : eq x y
+      · simp
+      · simp only [Bool.not_true, Bool.false_eq_true, if_false, Bool.true_and]
+        exact ih b (by simpa using h)
 
-theorem opEq_eq (a b : V) : opEq a b = .ok (a == b) := by
+theorem eqList_length (eq : Nat → Nat → Bool) : ∀ (a b : List Nat), Spec.eqList eq a b = true → a.length = b.length := by
+  intro a
+  induction a with
+  | nil => intro b h; cases b <;> simp_all [Spec.eqList]
+  | cons x a ih =>
+    intro b h
+    cases b with
+    | nil => simp [Spec.eqList] at h
+    | cons y b =>
+      simp only [Spec.eqList, Bool.and_eq_true] at h
+      simp [ih b h.2]
+
+theorem opEq_eq (eq : Nat → Nat → Bool) (a b : V) : opEq eq a b = .ok (Spec.eqList eq a b) := by
   unfold opEq
   by_cases h : a.length = b.length
   · simp only [h, if_true, ne_eq, not_true_eq_false, if_false]
-    rw [← h]; exact equalLoop_eq a b h
+    rw [← h]; exact equalLoop_eq eq a b h
   · rw [if_neg h]
-    have : (a == b) = false := by
+    have : Spec.eqList eq a b = false := by
       apply Bool.eq_false_iff.mpr
       intro hab
-      have hEq : a = b := by simpa using hab
-      exact h (by rw [hEq])
+      exact h (eqList_length eq a b hab)
     rw [this]
 
-theorem lexLoop_shift (x y : Nat) (a b : V) (n i : Nat) :
-    lexLoop (x :: a) (y :: b) (i + 1) n = lexLoop a b i n := by
+theorem lexLoop_shift (lt : Nat → Nat → Bool) (x y : Nat) (a b : V) (n i : Nat) :
+    lexLoop lt (x :: a) (y :: b) (i + 1) n = lexLoop lt a b i n := by
   induction n generalizing i with
   | zero => simp [lexLoop]
   | succ n ih => simp [lexLoop, ih]
 
-theorem opLt_eq : ∀ (a b : V), opLt a b = .ok (Spec.ltb a b) := by
+/-- `lexicographical_compare` answers "the three-way comparison says less" — for any `lt` whatever -/
+theorem opLt_eq (lt : Nat → Nat → Bool) : ∀ (a b : V), opLt lt a b = .ok (Spec.cmp3 lt a b == .lt) := by
   intro a
   induction a with
-  | nil => intro b; cases b <;> simp [opLt, lexLoop, Spec.ltb]
+  | nil => intro b; cases b <;> simp [opLt, lexLoop, Spec.cmp3]
   | cons x a ih =>
     intro b
     cases b with
-    | nil => simp [opLt, lexLoop, Spec.ltb]
+    | nil => simp [opLt, lexLoop, Spec.cmp3]
     | cons y b =>
       have hmin : min (x :: a).length (y :: b).length = min a.length b.length + 1 := by
         simp [Nat.succ_min_succ]
       unfold opLt
       rw [hmin]
-      simp only [lexLoop, rd_cons_zero, ok_bind, lexLoop_shift, Spec.ltb]
+      simp only [lexLoop, rd_cons_zero, ok_bind, lexLoop_shift, Spec.cmp3]
       have := ih b
       unfold opLt at this
       rw [this]
       repeat' split
       all_goals rfl
 
-theorem ltb_irrefl : ∀ a : List Nat, Spec.ltb a a = false := by
-  intro a; induction a with
-  | nil => rfl
-  | cons x a ih => simp [Spec.ltb, ih]
-
-/-- trichotomy of the lexicographic order on naturals: `b < a` iff neither `a < b` nor `a = b` -/
-theorem ltb_total : ∀ a b : List Nat, Spec.ltb b a = (!(Spec.ltb a b || a == b)) := by
+/-- for an asymmetric `lt` (every strict weak order is), comparing the other way round swaps the result -/
+theorem cmp3_swap (lt : Nat → Nat → Bool) (hasym : ∀ x y, lt x y = true → lt y x = false) :
+    ∀ a b : List Nat, Spec.cmp3 lt b a = (Spec.cmp3 lt a b).swap := by
   intro a
   induction a with
-  | nil => intro b; cases b <;> simp [Spec.ltb]
+  | nil => intro b; cases b <;> rfl
   | cons x a ih =>
     intro b
     cases b with
-    | nil => simp [Spec.ltb]
+    | nil => rfl
     | cons y b =>
-      simp only [Spec.ltb]
-      by_cases h1 : x < y
-      · have h2 : ¬ y < x := by omega
-        simp [h1, h2]
-      · by_cases h2 : y < x
-        · have h3 : ¬ x = y := by omega
-          simp [h1, h2, h3]
-        · have h3 : x = y := by omega
-          subst h3
-          simp [ih b]
+      simp only [Spec.cmp3]
+      cases hxy : lt x y
+      · cases hyx : lt y x
+        · simpa using ih b
+        · simp
+      · simp [hasym x y hxy]
 
-theorem relOps_eq (a b : V) : relOps a b = .ok (Spec.rels a b) := by
+/-- a strict weak order: irreflexive, transitive, incomparability transitive -/
+def StrictWeak (lt : Nat → Nat → Bool) : Prop :=
+  (∀ x, lt x x = false) ∧ (∀ x y z, lt x y = true → lt y z = true → lt x z = true)
+    ∧ (∀ x y z, lt x y = false → lt y x = false → lt y z = false → lt z y = false → lt x z = false ∧ lt z x = false)
+
+theorem relOps_eq (lt eq : Nat → Nat → Bool) (hasym : ∀ x y, lt x y = true → lt y x = false) (a b : V) :
+    relOps lt eq a b = .ok (Spec.rels lt eq a b) := by
   unfold relOps Spec.rels
-  rw [opEq_eq, opLt_eq, opLt_eq]
+  rw [opEq_eq, opLt_eq, opLt_eq, cmp3_swap lt hasym a b]
   simp only [ok_bind]
-  have h1 := ltb_total a b
-  have h2 := ltb_total b a
-  have h3 : (b == a) = (a == b) := by
-    by_cases h : a = b
-    · subst h; simp
-    · have h' : ¬ b = a := fun e => h e.symm
-      simp [h, h']
-  rw [h3] at h2
-  have e1 : (!Spec.ltb b a) = (Spec.ltb a b || a == b) := by rw [h1]; simp
-  have e2 : (!Spec.ltb a b) = (Spec.ltb b a || a == b) := by rw [h2]; simp
-  rw [e1, e2]
+  cases Spec.cmp3 lt a b <;> rfl
+
+/-! #### the special case of a total order consistent with `==` -/
+
+theorem eqList_beq (eq : Nat → Nat → Bool) (heq : ∀ x y, eq x y = (x == y)) :
+    ∀ a b : List Nat, Spec.eqList eq a b = (a == b) := by
+  intro a
+  induction a with
+  | nil => intro b; cases b <;> simp [Spec.eqList]
+  | cons x a ih =>
+    intro b
+    cases b with
+    | nil => simp [Spec.eqList]
+    | cons y b => simp [Spec.eqList, heq, ih b]
+
+theorem cmp3_eq_iff (lt : Nat → Nat → Bool) (hasym : ∀ x y, lt x y = true → lt y x = false)
+    (htri : ∀ x y, lt x y = false → lt y x = false → x = y) :
+    ∀ a b : List Nat, Spec.cmp3 lt a b = .eq ↔ a = b := by
+  intro a
+  induction a with
+  | nil => intro b; cases b <;> simp [Spec.cmp3]
+  | cons x a ih =>
+    intro b
+    cases b with
+    | nil => simp [Spec.cmp3]
+    | cons y b =>
+      simp only [Spec.cmp3, List.cons.injEq]
+      cases hxy : lt x y
+      · cases hyx : lt y x
+        · have := htri x y hxy hyx
+          subst this
+          simpa using ih b
+        · simp only [Bool.false_eq_true, if_false, if_true, reduceCtorEq, false_iff, not_and]
+          intro h; subst h; rw [hxy] at hyx; cases hyx
+      · simp only [if_true, reduceCtorEq, false_iff, not_and]
+        intro h; subst h
+        have := hasym x x hxy
+        rw [hxy] at this; cases this
+
+/-- for an element type whose `==` is the equality of the values and whose `<` is a total order on them,
+    `a <= b` is also `a < b || a == b` (and `a >= b` is `a > b || a == b`) -/
+theorem rels_total_order (lt eq : Nat → Nat → Bool) (hasym : ∀ x y, lt x y = true → lt y x = false)
+    (htri : ∀ x y, lt x y = false → lt y x = false → x = y) (heq : ∀ x y, eq x y = (x == y)) (a b : List Nat) :
+    Spec.rels lt eq a b =
+      [a == b, !(a == b), Spec.cmp3 lt a b == .lt, (Spec.cmp3 lt a b == .lt) || a == b,
+       Spec.cmp3 lt b a == .lt, (Spec.cmp3 lt b a == .lt) || a == b] := by
+  unfold Spec.rels
+  rw [eqList_beq eq heq, cmp3_swap lt hasym a b]
+  have hiff := cmp3_eq_iff lt hasym htri a b
+  by_cases hab : a = b
+  · have hc := hiff.mpr hab
+    subst hab
+    simp [hc]
+  · have hne : (a == b) = false := by simpa using hab
+    have hc : Spec.cmp3 lt a b ≠ .eq := fun h => hab (hiff.mp h)
+    rw [hne]
+    cases h : Spec.cmp3 lt a b
+    · rfl
+    · exact absurd h hc
+    · rfl
+
+theorem cmp3_nat_ltb : ∀ a b : List Nat, (Spec.cmp3 (fun x y => decide (x < y)) a b == .lt) = Spec.ltb a b := by
+  intro a
+  induction a with
+  | nil => intro b; cases b <;> rfl
+  | cons x a ih =>
+    intro b
+    cases b with
+    | nil => rfl
+    | cons y b =>
+      simp only [Spec.cmp3, Spec.ltb, decide_eq_true_eq]
+      repeat' split
+      · rfl
+      · rfl
+      · exact ih b
+
+theorem rels_nat (a b : List Nat) :
+    Spec.rels (fun x y => decide (x < y)) (fun x y => x == y) a b = Spec.relsTotal a b := by
+  rw [rels_total_order _ _ (by intro x y h; simp at h ⊢; omega) (by intro x y h1 h2; simp at h1 h2; omega)
+    (by intro x y; rfl) a b]
+  simp only [cmp3_nat_ltb, Spec.relsTotal]
 
 end Tetl.C01
